@@ -166,11 +166,12 @@ let judge _id (c : cursor) (r : cursor) : bool * string =
         let rw = next_q c in (s, a, s1, a1, rw)) in
     let ok = (match k with "ql" -> KQL | "retrace" -> KRetrace | "tb" -> KTreeBackup | "is" -> KImportance | _ -> KQL) in
     let site = (match kind with "sarsal" -> "SARSAL::stepUpdateQ" | "octl" -> "OffPolicyControl::stepUpdateQ" | _ -> "OffPolicyEvaluation::stepUpdateQ") in
-    let step st (s, a, s1, a1, rw) =
+    let step_tol tol st (s, a, s1, a1, rw) =
       match kind with
       | "sarsal" -> sarsal_step alpha g lam tol st ((((s, a), s1), a1), rw)
       | "octl" -> offctrl_step ok alpha g lam tol eps (nat_of_int na) st ((((s, a), s1), rw), matrix_get beh s a)
       | _ -> offeval_step ok alpha g lam tol st ((((((s, a), s1), rw), matrix_row tgt s1), matrix_get tgt s a), matrix_get beh s a) in
+    let ill = ref 0 in
     (* the target row of the one-step expected backup *)
     let target_row (q : q list list) (s1 : nat) (a1 : nat) : q list =
       match kind with
@@ -208,13 +209,188 @@ let judge _id (c : cursor) (r : cursor) : bool * string =
                     (Printf.sprintf "entry (%d,%d) is %s, one-step expected backup gives %s" si ai (string_of_q v) (string_of_q e)))
                 (List.combine er ir)) (List.combine expect iq)
           end;
-          let (mq, mtr) = List.fold_left step !state pend in
           if List.length itr < List.length (snd !state) + List.length pend then removed := true;
-          cmp_tab ~exact:ex (kind ^ "_step_q") site mq iq;
-          cmp_traces ~exact:ex (kind ^ "_step_traces") site mtr itr;
+          let agrees tol' =
+            let (mq, mtr) = List.fold_left (step_tol tol') !state pend in
+            cmp_tab ~exact:ex (kind ^ "_step_q") site mq iq;
+            cmp_traces ~exact:ex (kind ^ "_step_traces") site mtr itr in
+          (try agrees tol with Disagreement (c0, s0, d0) ->
+             (* general regime only: a trace whose decayed value sits within rounding of the cut-off may be
+                cut by one side and kept by the other; accept if a cut-off moved by 1e-9 reproduces the dump *)
+             let eps9 = q_mul tol9 (q_add q_one (q_abs tol)) in
+             let ok_pert t = (try agrees t; true with Disagreement _ -> false) in
+             if (not ex) && (ok_pert (q_add tol eps9) || ok_pert (q_sub tol eps9)) then incr ill
+             else raise (Disagreement (c0, s0, d0)));
           state := (iq, itr); pending := []
         end) steps;
-    (n >= 2 && !removed, kind ^ "_" ^ k)
+    (n >= 2 && !removed, kind ^ "_" ^ k ^ (if !ill > 0 then "_ill_conditioned" else ""))
+  | "ps" | "psq" ->
+    let ns = next_int c in let na = next_int c in
+    let g = next_q c in let theta = next_q c in
+    let tm = List.init na (fun _ -> List.init ns (fun _ -> List.init ns (fun _ -> next_q c))) in
+    let rm = List.init ns (fun _ -> List.init na (fun _ -> next_q c)) in
+    let m = { nS = nat_of_int ns; nA = nat_of_int na; p = tm; r = rm; gam = g } in
+    let site = "PrioritizedSweeping::stepUpdateQ" in
+    let read_dump () =
+      let iq = read_table r ns na in
+      let iv = List.init ns (fun _ -> next_q r) in
+      let ia = List.init ns (fun _ -> next_nat r) in
+      let iqu = next_list r (fun r -> let s = next_nat r in let a = next_nat r in let pr = next_q r in ((s, a), pr)) in
+      let nh = next_int r in
+      (iq, iv, ia, iqu, nh) in
+    let key_of ((s, a), _) = (int_of_nat s, int_of_nat a) in
+    let sort_qu l = List.sort (fun x y -> compare (key_of x) (key_of y)) l in
+    let str_qu l = String.concat " " (List.map (fun ((s, a), pr) -> Printf.sprintf "(%d,%d:%s)" (int_of_nat s) (int_of_nat a) (string_of_q pr)) l) in
+    let params_small = small g && small theta && List.for_all small_tab tm && small_tab rm in
+    let theta0 = q_eq theta q_zero in
+    (* O: invariant of the theorem (theta = 0) on the implementation's own state *)
+    let oracle ~ex (iq, iv, ia, iqu, nh) (donel : (nat * nat) list) =
+      if nh <> List.length iqu then oracle_fail "ps_invariant" site "queueHandles_ and queue_ sizes differ";
+      if not (uniq_keysb (List.map (fun ((s, a), pr) -> ((s, a), pr)) iqu)) then oracle_fail "ps_invariant" site ("duplicate queue key: " ^ str_qu iqu);
+      if theta0 then begin
+        let e = if ex then q_zero else q_mul tol9 (q_add q_one (List.fold_left (fun acc x -> q_max acc (q_abs x)) q_zero iv)) in
+        if not (ps_invb m e iq iv (List.map fst iqu) donel) then
+          oracle_fail "ps_invariant" site (Printf.sprintf "a backed-up pair is neither queued nor Bellman-consistent: q %s v %s queue %s" (str_tab iq) (str_qs iv) (str_qu iqu))
+      end in
+    (* C: compare a model state with a dump *)
+    let matches ~ex (st : ps_state) (iq, iv, ia, iqu, _) : string option =
+      let veq x y = if ex then q_eq x y else q_close x y in
+      let bad = ref None in
+      let fail msg = if !bad = None then bad := Some msg in
+      List.iteri (fun s (mr, ir) -> List.iteri (fun a (x, y) -> if not (veq x y) then
+          fail (Printf.sprintf "q(%d,%d): model %s impl %s" s a (string_of_q x) (string_of_q y))) (List.combine mr ir)) (List.combine st.ps_q iq);
+      List.iteri (fun s (x, y) -> if not (veq x y) then fail (Printf.sprintf "v(%d): model %s impl %s" s (string_of_q x) (string_of_q y))) (List.combine st.ps_v iv);
+      (* greedy actions: compared only when the model-side maximum is separated *)
+      List.iteri (fun s (x, y) -> if ex && int_of_nat x <> int_of_nat y then fail (Printf.sprintf "action(%d): model %d impl %d" s (int_of_nat x) (int_of_nat y))) (List.combine st.ps_acts ia);
+      let mq = sort_qu st.ps_queue and iq' = sort_qu iqu in
+      let border pr = (not ex) && q_le pr (q_add theta (q_mul tol9 (q_add q_one (q_abs theta)))) in
+      let rec go a b = match a, b with
+        | [], [] -> ()
+        | x :: a', y :: b' when key_of x = key_of y ->
+          if not (veq (snd x) (snd y)) then fail (Printf.sprintf "priority of %s: model %s impl %s" (str_qu [x]) (string_of_q (snd x)) (string_of_q (snd y)));
+          go a' b'
+        | x :: a', (y :: _ as b') when key_of x < key_of y -> if not (border (snd x)) then fail ("queued only in the model: " ^ str_qu [x]); go a' b'
+        | x :: a', [] -> if not (border (snd x)) then fail ("queued only in the model: " ^ str_qu [x]); go a' []
+        | a', y :: b' -> if not (border (snd y)) then fail ("queued only in the implementation: " ^ str_qu [y]); go a' b' in
+      go mq iq';
+      !bad in
+    let resync (iq, iv, ia, iqu, _) donel = { ps_q = iq; ps_v = iv; ps_acts = ia; ps_queue = iqu; ps_done = donel } in
+    if kind = "ps" then begin
+      let nops = next_int c in
+      let st = ref (ps_init m) in
+      let queued_seen = ref false in
+      let inconclusive = ref 0 in
+      for _ = 1 to nops do
+        let op = next c in
+        let ex = params_small && small_tab_n 20 !st.ps_q && List.for_all (small_n 20) !st.ps_v && List.for_all (fun (_, pr) -> small_n 20 pr) !st.ps_queue in
+        (match op with
+         | "s" ->
+           let s = next_nat c in let a = next_nat c in
+           let d = read_dump () in
+           let donel = (s, a) :: !st.ps_done in
+           oracle ~ex d donel;
+           let st' = ps_step m theta !st s a in
+           (match matches ~ex st' d with Some msg -> disagree "ps_step" site msg | None -> ());
+           st := resync d donel
+         | "b" ->
+           let n = next_nat c in
+           let tops = next_nats r in
+           let rec pairs l = match l with x :: y :: t -> (x, y) :: pairs t | _ -> [] in
+           let ch = pairs tops in
+           let d = read_dump () in
+           let donel = List.rev_append ch !st.ps_done in
+           oracle ~ex d donel;
+           (match ps_batch m theta n !st ch with
+            | PsBadChoice -> disagree "ps_batch_top" "PrioritizedSweeping::batchUpdateQ"
+                               ("queue_.top() sequence " ^ str_nats tops ^ " is not a sequence of maximal queued pairs of the model; queue " ^ str_qu !st.ps_queue)
+            | PsOk st' -> (match matches ~ex st' d with Some msg -> disagree "ps_batch" "PrioritizedSweeping::batchUpdateQ" msg | None -> ()));
+           st := resync d donel
+         | "B" ->
+           let n = next_int c in
+           let d = read_dump () in
+           (* search over the tie-breaking choices of queue_.top() *)
+           let budget = ref 300 in
+           let found = ref None in
+           let rec dfs k (cur : ps_state) (popped : (nat * nat) list) =
+             if !found <> None || !budget <= 0 then ()
+             else if k = 0 || cur.ps_queue = [] then begin
+               decr budget;
+               if matches ~ex cur d = None then found := Some popped
+             end else
+               List.iter (fun (key, _) ->
+                   if is_top cur.ps_queue key then
+                     match ps_batch m theta (S O) cur [key] with
+                     | PsOk nxt -> dfs (k - 1) nxt (key :: popped)
+                     | PsBadChoice -> ()) cur.ps_queue in
+           dfs n !st [];
+           (match !found with
+            | Some popped ->
+              let donel = List.rev_append popped !st.ps_done in
+              oracle ~ex d donel; st := resync d donel
+            | None ->
+              if ex && !budget > 0 then
+                disagree "ps_batch" "PrioritizedSweeping::batchUpdateQ" "no sequence of maximal-priority pops of the model reproduces the implementation's state"
+              else begin incr inconclusive; let (_, _, _, _, _) = d in st := resync d !st.ps_done end)
+         | o -> failwith ("unknown ps op " ^ o));
+        if !st.ps_queue <> [] then queued_seen := true
+      done;
+      (!queued_seen, "ps" ^ (if theta0 then "_theta0" else "_theta") ^ (if params_small then "_dyadic" else "_general") ^ (if !inconclusive > 0 then "_inconclusiveB" else ""))
+    end else begin
+      let rounds = next_int r in
+      let (iq, iv, ia, iqu, nh) as d = read_dump () in
+      let all_pairs = List.concat (List.init ns (fun s -> List.init na (fun a -> (nat_of_int s, nat_of_int a)))) in
+      oracle ~ex:false d all_pairs;
+      if iqu = [] && theta0 then begin
+        (* quiescent with theta = 0: Q is a fixed point of the Bellman operator (up to rounding), hence
+           within residual/(1-gamma) of value iteration's limit *)
+        let e = q_mul tol9 (q_add q_one (List.fold_left (fun acc x -> q_max acc (q_abs x)) q_zero iv)) in
+        if not (ps_bellmanb m e iq) then
+          oracle_fail "ps_quiescent_is_bellman" "PrioritizedSweeping::batchUpdateQ" ("empty queue but Q is not a Bellman fixed point: " ^ str_tab iq)
+      end;
+      (rounds > 0, "psq" ^ (if iqu = [] then "_quiescent" else "_budget"))
+    end
+  | "dyna" ->
+    let ns = next_int c in let na = next_int c in
+    let alpha = next_q c in let g = next_q c in
+    let nops = next_int c in
+    let site = "DynaQ::stepUpdateQ" in
+    let st = ref (qzero (nat_of_int ns) (nat_of_int na), ([] : (nat * nat) list)) in
+    let rs = ref [] in
+    let batches = ref 0 in
+    for _ = 1 to nops do
+      let op = next c in
+      let ex = small alpha && small g && small_tab (fst !st) in
+      let st' =
+        (match op with
+         | "s" ->
+           let s = next_nat c in let a = next_nat c in let s1 = next_nat c in let rw = next_q c in
+           rs := rw :: !rs;
+           dyna_step alpha g !st (((s, a), s1), rw)
+         | "b" ->
+           let n = next_int c in
+           let samples = List.init n (fun _ -> let s1 = next_nat c in let rw = next_q c in (s1, rw)) in
+           let asked = next_list r (fun r -> let s = next_nat r in let a = next_nat r in (s, a)) in
+           incr batches;
+           let vis = snd !st in
+           if vis = [] then begin
+             if asked <> [] then disagree "dyna_batch" "DynaQ::batchUpdateQ" "model sampled although nothing was visited"; !st
+           end else begin
+             if List.length asked <> n then disagree "dyna_batch" "DynaQ::batchUpdateQ" "number of model samples differs from N";
+             let index_of (s, a) =
+               let rec go i l = match l with
+                 | [] -> disagree "dyna_batch" "DynaQ::batchUpdateQ" (Printf.sprintf "sampled pair (%d,%d) was never visited" (int_of_nat s) (int_of_nat a))
+                 | (s', a') :: t -> if int_of_nat s = int_of_nat s' && int_of_nat a = int_of_nat a' then i else go (i + 1) t in
+               go 0 vis in
+             let draws = List.map2 (fun k (s1, rw) -> rs := rw :: !rs; ((nat_of_int (index_of k), s1), rw)) asked samples in
+             (match dyna_batch alpha g !st draws with Some x -> x | None -> disagree "dyna_batch" "DynaQ::batchUpdateQ" "model: draw out of range")
+           end
+         | o -> failwith ("unknown dyna op " ^ o)) in
+      let impl = read_table r ns na in
+      (match box_of g !rs with Some (lo, hi) -> check_box ~exact:false "dynaq_bounded" site lo hi impl | None -> ());
+      cmp_tab ~exact:(ex && op = "s") "dyna_step" site (fst st') impl;
+      st := (impl, snd st')
+    done;
+    (!batches > 0 && snd !st <> [], "dyna")
   | k -> failwith ("unknown case kind " ^ k)
 
 let () = main_loop judge
